@@ -11,7 +11,7 @@ reopens on an IH5MFRecord and checks after every step that
 Used by vt/harness/c10.py on the substrate (P = FakePath) and by the stage-2 script on real files.
 """
 
-ACTS = ["commit", "commit_override", "interrupt_r+", "interrupt_a", "discard", "close_reopen_r", "interrupt_r"]
+ACTS = ["commit", "commit_override", "interrupt_r+", "interrupt_a", "discard", "close_reopen_r", "interrupt_r", "refused_commit"]
 
 
 def run(IH5MFRecord, IH5Manifest, IH5UBExtManifest, hashsum_file, P, opn, prefix, acts, tamper=False, notes=None):
@@ -46,6 +46,12 @@ def run(IH5MFRecord, IH5Manifest, IH5UBExtManifest, hashsum_file, P, opn, prefix
             return bad(label, "manifest of the last commit not available", str(e)[:80])
         if got != want:
             return bad(label, "extensions", got, "expected", want)
+        # the manifest object is the one linked by the newest committed container
+        metas = rec.ih5_meta
+        ub = metas[-1] if metas[-1].hdf5_hashsum is not None or len(metas) == 1 else metas[-2]
+        ext = IH5UBExtManifest.get(ub)
+        if ext is not None and ext.manifest_uuid != rec.manifest.manifest_uuid:
+            return bad(label, "rec.manifest is not the manifest of the newest committed container")
         return True
 
     r = IH5MFRecord(prefix, "w")
@@ -107,6 +113,17 @@ def run(IH5MFRecord, IH5Manifest, IH5UBExtManifest, hashsum_file, P, opn, prefix
                 r = IH5MFRecord(prefix, "r+")
                 if not check_open(r, label + " (r+)", want):
                     return False
+        elif act == "refused_commit":
+            # a commit that is refused (nothing is pending) leaves the manifest of the last commit in place
+            if writable:
+                r.commit_patch()
+                if not check_commit(r, label + " (first)", want):
+                    return False
+            try:
+                r.commit_patch(manifest_exts={"bad": n})
+                return bad(label, "commit with nothing pending was accepted")
+            except ValueError:
+                pass
         elif act == "discard":
             if writable and len(r.ih5_files) > 1:
                 r.discard_patch()
